@@ -258,6 +258,8 @@ def main(argv=None):
     try:
         return check(run, cfg)
     except (Unsupported, CannotBind) as e:
+        if os.environ.get("DVC_TRACE"):
+            traceback.print_exc()
         run.errors.append('%s: %s' % (type(e).__name__, e))
         run.write_evidence(cfg, [], [], [], {}, {}, [], 'checker-error')
         print('CHECKER-ERROR property=%s %s: %s' % (a.prop, type(e).__name__, e))
